@@ -285,7 +285,12 @@ class XROps(RealOps):
         u = lambda r: RealOps.unary(self, name, r)
         ite = lambda c, a, b: RealOps.ite(self, c, a, b)
         if name == "exp":
-            return self.norm(XV(X.nan, X.pinf, False, ite(X.ninf, Fraction(0), u(X.r))))
+            body = u(X.r)
+            if getattr(self, "exp_underflow_below", None) is not None:
+                # float32 fact: exp(x) rounds to 0 for x <= -105 (exp(-105) = 2.5e-46 is below half the smallest subnormal); modelling it lets
+                # the selection obligations see probability-space masking / renormalisation that divides 0 by 0 when all allowed logits underflow
+                body = ite(RealOps.le(self, X.r, self.exp_underflow_below), Fraction(0), body)
+            return self.norm(XV(X.nan, X.pinf, False, ite(X.ninf, Fraction(0), body)))
         if name in ("log", "log1p"):
             arg = X.r if name == "log" else RealOps.add(self, Fraction(1), X.r)
             neg = self._and(fin, RealOps.lt(self, arg, 0))
@@ -311,10 +316,11 @@ class XROps(RealOps):
 class XRInterp(Interp):
     """REAL-mode interpreter with IEEE special values"""
 
-    def __init__(self, **kw):
+    def __init__(self, exp_underflow=False, **kw):
         super().__init__(mode="real", **kw)
         self.o = XROps()
         self.o.fold_transcendentals = kw.get("fold_transcendentals", False)
+        self.o.exp_underflow_below = Fraction(-105) if exp_underflow else None
 
 
 def div_axioms(formulas):
